@@ -3,20 +3,29 @@
 //   T <now> <delta> <lmm solves since the previous T>
 //   A <id> <remaining> <rate>                  one per registered activity that was started and whose owner has not yet seen it complete
 //   U <H|L|DR|DW|DT> <name> <load> <capacity>  one per resource with a non-zero load (Host::get_load, Link::get_load, disk constraints)
-// and around every activity, from the owning actor:
+// and, from the owning actor:
 //   B <id> <clock> <kind>                      right after start()
 //   F <id> <clock> <start_time> <finish_time>  right after wait() returned
+//   Z <id> <clock> / R <id> <clock>            right after Activity::suspend() / resume()
+//   P <host> <pstate> <speed> <clock>          right after Host::set_pstate()
 // remaining = Activity::get_remaining() (public API) while the kernel action is running; once the action is finished but not yet
-// reported to the activity, the value stored in the action is read. rate = value of the action's LMM variable * rate factor, i.e. the
-// speed at which the kernel consumed the work during the interval that just elapsed.
+// reported to the activity, the value stored in the action is read (the public getter aborts in that window under the Lazy update).
+// rate = value of the action's LMM variable * rate factor, i.e. the speed at which the kernel consumed the work during the interval
+// that just elapsed (no solve happens between the update of the actions and on_time_advance).
 //
-// stdin after the platform:
+// One case on stdin = platform (plat.hpp) then:
 //   A <actor> <host>                            starts the script of a new actor
 //   S <d>                                       sleep
+//   P <host> <pstate>                           change the pstate of a host
 //   E <id> <host> <flops> <bound|-1> <priority> <threads>
 //   C <id> <src> <dst> <bytes>
 //   I <id> <disk> <R|W> <bytes>
-//   G <n>                                       the next n activity lines are started together, then waited in order
+//   G <n> <z>                                   the next n activity lines are started together; then the z following lines
+//   Z <id> <d1> <d2>                               sleep d1, suspend activity id if it still runs, sleep d2, resume it
+//                                               are executed; then the n activities are waited in order
+// Batch mode (first line "CASE ..."): stdin = sequence of   CASE <tag> <engine flags...> / <case lines> / ENDCASE ; every case
+// runs in a forked child (one Engine per process; the fork only saves the start-up cost) and the parent prints
+//   CASE <tag>  ... child log ...  DONE <tag> <exit code|-1> <signal|0>
 #include "plat.hpp"
 #include "src/kernel/activity/ActivityImpl.hpp"
 #include "src/kernel/lmm/maxmin.hpp"
@@ -24,6 +33,8 @@
 #include "src/verif_hooks.hpp"
 #include <cstdio>
 #include <cstdlib>
+#include <sys/wait.h>
+#include <unistd.h>
 namespace sg4 = simgrid::s4u;
 using simgrid::kernel::resource::Action;
 
@@ -34,8 +45,8 @@ struct Rec {
 };
 static std::map<long, Rec> recs;
 static Plat plat;
-static long nsolves      = 0;
-static bool public_only  = false;
+static long nsolves     = 0;
+static bool public_only = false;
 
 static void on_solved(simgrid::kernel::lmm::System*)
 {
@@ -49,9 +60,9 @@ static void on_advance(double delta)
   for (auto& [id, r] : recs) {
     if (not r.live)
       continue;
-    auto* impl      = r.act->get_impl();
-    Action* a       = impl->model_action_;
-    double rate     = a ? a->get_rate() : 0.0;
+    auto* impl  = r.act->get_impl();
+    Action* a   = impl->model_action_;
+    double rate = a ? a->get_rate() : 0.0;
     double rem;
     if (a && a->get_state() != Action::State::STARTED && not public_only)
       rem = a->get_remains_no_update();
@@ -145,15 +156,39 @@ static void actor(std::vector<std::string> script)
       double d;
       is >> d;
       sg4::this_actor::sleep_for(d);
+    } else if (k == "P") {
+      std::string h;
+      int ps;
+      is >> h >> ps;
+      auto* host = plat.hosts.at(h);
+      host->set_pstate(ps);
+      printf("P %s %d %.17g %.17g\n", h.c_str(), ps, host->get_speed(), sg4::Engine::get_clock());
     } else if (k == "G") {
       int n;
-      is >> n;
+      int z = 0;
+      is >> n >> z;
       std::vector<long> ids;
       for (int j = 0; j < n; j++) {
         long id;
         auto a = make(script[++i], id);
         begin(a, id, script[i][0]);
         ids.push_back(id);
+      }
+      for (int j = 0; j < z; j++) {
+        std::istringstream zs(script[++i]);
+        std::string zk;
+        long id;
+        double d1, d2;
+        zs >> zk >> id >> d1 >> d2;
+        sg4::this_actor::sleep_for(d1);
+        auto& r = recs[id];
+        if (r.act->test())
+          continue; // already over: nothing to suspend
+        r.act->suspend();
+        printf("Z %ld %.17g\n", id, sg4::Engine::get_clock());
+        sg4::this_actor::sleep_for(d2);
+        r.act->resume();
+        printf("R %ld %.17g\n", id, sg4::Engine::get_clock());
       }
       for (long id : ids)
         end(id);
@@ -166,12 +201,16 @@ static void actor(std::vector<std::string> script)
   }
 }
 
-int main(int argc, char** argv)
+static int run_case(std::vector<std::string> args, const std::string& text)
 {
-  sg4::Engine e(&argc, argv);
-  setvbuf(stdout, nullptr, _IOLBF, 0);
-  public_only = getenv("C21_PUBLIC_ONLY") != nullptr;
-  plat        = read_platform(e, std::cin);
+  std::vector<char*> argv;
+  for (auto& a : args)
+    argv.push_back(a.data());
+  argv.push_back(nullptr);
+  int argc = (int)args.size();
+  sg4::Engine e(&argc, argv.data());
+  std::istringstream in(text);
+  plat = read_platform(e, in);
   std::string name, host;
   std::vector<std::string> script;
   auto flush = [&]() {
@@ -193,5 +232,55 @@ int main(int argc, char** argv)
   sg4::Engine::on_time_advance_cb(on_advance);
   e.run();
   printf("END %.17g\n", sg4::Engine::get_clock());
+  return 0;
+}
+
+int main(int argc, char** argv)
+{
+  setvbuf(stdout, nullptr, _IOLBF, 0);
+  public_only = getenv("C21_PUBLIC_ONLY") != nullptr;
+  std::vector<std::string> base(argv, argv + argc);
+  std::vector<std::string> lines;
+  std::string line;
+  while (std::getline(std::cin, line))
+    if (not line.empty())
+      lines.push_back(line);
+  if (lines.empty() || lines[0].rfind("CASE", 0) != 0) { // single case, engine flags on the command line
+    std::string text;
+    for (auto const& l : lines)
+      text += l + "\n";
+    return run_case(base, text);
+  }
+  long budget = getenv("C21_CASE_BUDGET") ? atol(getenv("C21_CASE_BUDGET")) : 120;
+  for (size_t i = 0; i < lines.size();) {
+    std::istringstream is(lines[i++]);
+    std::string k, tag, f;
+    is >> k >> tag;
+    std::vector<std::string> args = base;
+    while (is >> f)
+      args.push_back(f);
+    std::string text;
+    while (i < lines.size() && lines[i] != "ENDCASE")
+      text += lines[i++] + "\n";
+    i++;
+    printf("CASE %s\n", tag.c_str());
+    fflush(stdout);
+    fflush(stderr);
+    pid_t pid = fork();
+    if (pid < 0) {
+      perror("fork");
+      return 3;
+    }
+    if (pid == 0) {
+      alarm((unsigned)budget); // watchdog of one case: the parent reports signal 14, which the checker counts as inconclusive
+      int rc = run_case(args, text);
+      fflush(stdout);
+      exit(rc);
+    }
+    int st = 0;
+    waitpid(pid, &st, 0);
+    printf("DONE %s %d %d\n", tag.c_str(), WIFEXITED(st) ? WEXITSTATUS(st) : -1, WIFSIGNALED(st) ? WTERMSIG(st) : 0);
+    fflush(stdout);
+  }
   return 0;
 }
